@@ -31,7 +31,7 @@ ASSUMPTIONS = ['hook event timestamps come from CLOCK_MONOTONIC which is system-
                'process of the run is blocked (workers in Barrier.wait or idle, parent in AsyncResult.get) while the '
                'event log does not move; a watchdog firing without certificate is inconclusive',
                'interleavings inside numpy or inside multiprocessing internals are not controlled']
-MIN_COUNTERS = {'stripe_sweeps_with_non_square_box': 3, 'blank_band_runs': 6, 'blank_band_runs_with_a_wholly_blank_stripe': 2, 'slow_stripe_runs': 2, 'interrupts_delivered': 2, 'schedule_cases_with_sliver_stripe': 2, 'runs_ok': 20, 'hook_events': 200, 'multi_stripe_runs': 10}
+MIN_COUNTERS = {'faults_of_other_exception_classes_surfaced': 3, 'stripe_sweeps_with_non_square_box': 3, 'blank_band_runs': 6, 'blank_band_runs_with_a_wholly_blank_stripe': 2, 'slow_stripe_runs': 2, 'interrupts_delivered': 2, 'schedule_cases_with_sliver_stripe': 2, 'runs_ok': 20, 'hook_events': 200, 'multi_stripe_runs': 10}
 BATCHES_PER_JOB = 4
 KNOWN_EXIT = 'worker-killed-without-raising'
 
@@ -138,6 +138,13 @@ def cases(seed, tier):
                     pts = ['start', 'after_barrier1', 'end']      # each costs a watchdog period while the finding is open
                 out.append({'kind': 'fault', 'rows': rows, 'grid': g, 'k': k, 'mode': mode, 'stripe_idx': stripe_idx,
                             'points': pts, 'seed': [seed, 'flt']})
+    # other exception classes a worker may fail with: an OSError, and a class whose constructor takes two arguments (it
+    # cannot be rebuilt from its pickled args in the parent) - the call must still fail cleanly, whatever the class
+    for rows, g, k in ([(96, 8, 3)] if tier == 'quick' else [(64, 16, 2), (96, 8, 3), (120, 8, 4)]):
+        for mode in ('raise_custom', 'raise_os'):
+            for stripe_idx in ((1,) if tier == 'quick' else range(k)):
+                out.append({'kind': 'fault', 'rows': rows, 'grid': g, 'k': k, 'mode': mode, 'stripe_idx': stripe_idx,
+                            'points': ['start', 'bkg_subtracted'] if tier == 'quick' else bh.POINTS, 'seed': [seed, 'flt2']})
     # ---- 6. interrupt: SIGINT to the whole process group (a terminal ^C) while all stripes are parked after barrier 1
     for rows, g, k in ([(64, 16, 2), (96, 8, 3)] if tier == 'quick' else [(64, 16, 2), (96, 8, 3), (120, 8, 4)]):
         for point in (('after_barrier1', 'bkg_subtracted') if tier == 'quick' else ('start', 'after_barrier1', 'bkg_subtracted', 'after_barrier2')):
@@ -420,13 +427,23 @@ def _faults(o, case, base, stripes, sc):
         elif st == 'stuck':
             raise RuntimeError('watchdog without certificate in fault run %r' % (rec,))
         elif st == 'crashed':
-            raise RuntimeError('bane child crashed: %r' % (rec,))
+            # the process that called filter_image ended without the call having returned or raised (no result record): after
+            # an injected WORKER failure that is not a clean failure of the call.  (Never seen on the unchanged code in any
+            # sweep; a crash without any trace of the subject or of multiprocessing in its stderr stays a harness error.)
+            err = rec.get('stderr') or ''
+            if 'multiprocessing' in err or 'AegeanTools' in err:
+                o.count('caller_died_after_fault')
+                o.violate('caller_died_after_worker_failure', dict(wit, returncode=rec.get('returncode'), stderr_tail=err[-600:]), None)
+            else:
+                raise RuntimeError('bane child crashed: %r' % (rec,))
         elif st == 'ok':
             # the failure was injected into a worker: the call must not report success
             o.violate('failure_swallowed', dict(wit, returned=rec.get('returned')), None)
             _judge_cleanup(o, rec, wit)
         else:
             o.count('faults_surfaced_as_exception')
+            if mode in ('raise_custom', 'raise_os'):
+                o.count('faults_of_other_exception_classes_surfaced')
             o.worst('fault_to_exception_seconds', rec.get('t'))
             _judge_cleanup(o, rec, wit)
     o.sample = {'layout': [case['rows'], case['grid'], case['k']], 'mode': mode, 'stripe': row,
